@@ -55,3 +55,29 @@ Print Assumptions C18_diff_sound.
 Print Assumptions C18_graft.
 Print Assumptions C18_leaves.
 Print Assumptions C18_nonvacuous.
+
+(* the diff is EXACTLY the list of minimal differing pairs, left to right.  diff_full pairs every reported pair
+   with its position (its pairs are get_diff's, in order); a pair (x, y) is reported at position q iff q reads
+   x in the first and y in the second tree, the roots differ at q and at every position above it, and x, y
+   cannot be compared any deeper (they are not both inner nodes) ... *)
+Theorem C18_diff_exact : forall H a b,
+  map snd (diff_full H a b) = get_diff H a b /\
+  forall q x y, In (q, (x, y)) (diff_full H a b) <-> minimal_pair H a b q x y.
+Proof. intros H a b. split; [apply diff_full_pairs|apply diff_exact]. Qed.
+
+(* ... the reported positions are strictly increasing in the left-before-right order, hence pairwise distinct and
+   never nested (no reported subtree contains another) ... *)
+Theorem C18_diff_left_to_right : forall H a b,
+  sorted_lt (map fst (diff_full H a b)) /\ (forall p q, lex_lt p q -> ~ prefix p q /\ ~ prefix q p).
+Proof. intros H a b. split; [apply diff_sorted|exact lex_lt_disjoint]. Qed.
+
+(* ... and with a collision-free pair hash "differs all the way down" is just "differs there": the diff is the
+   set of all positions where the two trees hold subtrees with different roots that cannot be refined *)
+Theorem C18_diff_exact_inj : forall H (Hi : Hinj H) a b q x y, novirt a -> novirt b ->
+  (In (q, (x, y)) (diff_full H a b) <->
+   getter nosrc a q = Ok x /\ getter nosrc b q = Ok y /\ root H x <> root H y /\ ~ both_pairs x y).
+Proof. exact diff_exact_inj. Qed.
+
+Print Assumptions C18_diff_exact.
+Print Assumptions C18_diff_left_to_right.
+Print Assumptions C18_diff_exact_inj.
